@@ -51,6 +51,12 @@ Theorem C13_final_union : forall ops0 ops j, let c := final init ops0 in
 Proof. exact C13_final_union_proof. Qed.
 Print Assumptions C13_final_union.
 
+(* what was created stays: once an id has been handed out, no later operation on that job / search answers KeyError
+   (jobs and searches are never removed, records keep the keys they were created with) *)
+Theorem C13_created_stays : forall ops, Spec_exist (combine ops (outs init ops)).
+Proof. exact C13_created_stays_proof. Qed.
+Print Assumptions C13_created_stays.
+
 (* several clients: any interleaving of atomic client operations is one sequential history H (operations tagged
    with the issuing client).  If every client only touches the jobs it created itself, then every client's own
    view of the run (its projection) passes the read-your-writes oracle, all identifiers are distinct and new. *)
@@ -100,6 +106,10 @@ Theorem C13_oracle_clients : forall pre hs fin, ok_C13 pre hs fin = true -> Spec
 Proof. exact ok_C13_sound. Qed.
 Print Assumptions C13_oracle_clients.
 
+Theorem C13_oracle_exist : forall h, ok_exist h = true -> Spec_exist h.
+Proof. exact ok_exist_sound. Qed.
+Print Assumptions C13_oracle_exist.
+
 (* ---------- non-vacuity ---------- *)
 Example C13_example_run :
   outs init [CreateSearch; CreateJob 0; StoreJobOut (0, 0) (FV [1; 7]); StoreMeta (0, 0) 100 [2; 5];
@@ -118,7 +128,8 @@ Proof. vm_compute. split; reflexivity. Qed.
 Example C13_example_oracle_rejects :
   ok_ryw [(StoreJobOut (0, 0) (FV [1; 7]), ONone); (LoadJob (0, 0), ORec init_rec)] = false
   /\ ok_ryw [(StoreJobOut (0, 0) (FV [1; 7]), ONone); (LoadJob (0, 0), OErr EKey)] = false
-  /\ ok_C13 [] [[(CreateJob 0, OJid (0, 0))]; [(CreateJob 0, OJid (0, 0))]] [(0, 0)] = false.
+  /\ ok_C13 [] [[(CreateJob 0, OJid (0, 0))]; [(CreateJob 0, OJid (0, 0))]] [(0, 0)] = false
+  /\ ok_exist [(CreateJob 0, OJid (0, 0)); (StoreMeta (0, 0) 100 [1; 1], OErr EKey)] = false.
 Proof. vm_compute. repeat split; reflexivity. Qed.
 
 (* the hypothesis of C13_interleaving is satisfiable: two clients, interleaved, each on its own jobs *)
